@@ -557,6 +557,7 @@ def r12e(ctx, rule='R12e'):
     from ..pitlib import norm_full_at
     repo = ctx.repo
     n = 0
+    done_const = set()
     for ci in pit_layer_classes(repo):
         bufs = registered_buffers(repo, ci)
         init = ci.methods.get('__init__')
@@ -597,6 +598,21 @@ def r12e(ctx, rule='R12e'):
                         if not mcls:
                             continue
                         key = (ci.name, y[2], mattr)
+                        # every class the attribute can hold (frozen variants are subclasses)
+                        for sub_m in repo.subclasses(mcls[0], strict=True):
+                            mis = analyse_masker(repo, sub_m)
+                            if mis.buffer_only is not None and (ci.name, y[2], sub_m.name) \
+                                    not in done_const:
+                                done_const.add((ci.name, y[2], sub_m.name))
+                                n += 1
+                                ctx.ob(rule, f'{ci.name}.{y[2]} x {sub_m.name}.theta', False,
+                                       f'{sub_m.name}.theta is the constant buffer '
+                                       f'{mis.buffer_only} (one per tap) but {ci.name} multiplies '
+                                       f'the theta of its {mattr} by {y[2]}, the reciprocal '
+                                       f'counts written for the un-normalised theta of '
+                                       f'{mcls[0].name}: with every mask open theta*norm < 1 on '
+                                       f'most taps and the continuous kernel size is below the '
+                                       f'original one', where(mis.theta_fn))
                         mi = analyse_masker(repo, mcls[0])
                         if mi.error or mi.alive is None:
                             raise AnalysisError(f'{rule}: masker {mcls[0].name} not modelled')
